@@ -33,11 +33,64 @@ def IsProd (tbl : Table) (A : Nat) (syms : List Nat) (pid : Nat) : Prop :=
 
 def nonExtraSyms (ks : List PTree) : List Nat := (ks.filter fun k => !k.isExtra).map PTree.sym
 
-/-- every node is an instance of a production of the table -/
+def isShiftExtra : Action → Bool
+  | .shift _ true _ => true
+  | _ => false
+
+/-- the tokens the table shifts as extras somewhere -/
+def isExtraSym (tbl : Table) (a : Nat) : Bool :=
+  (List.range tbl.acts.size).any fun s => (tbl.actions s a).any isShiftExtra
+
+/-- an extra leaf is a token the table treats as an extra (or the end-of-input leaf); any other leaf
+is a real terminal that is never an extra -/
+def LeafOK (tbl : Table) (s : Nat) (e : Bool) : Prop :=
+  (e = true → isExtraSym tbl s = true ∨ s = 0) ∧
+  (e = false → s ≠ 0 ∧ s < tbl.tokenCount ∧ isExtraSym tbl s = false)
+
+/-- every node is a (non-extra) instance of a production of the table, every leaf is `LeafOK` -/
 inductive TreeOver (tbl : Table) : PTree → Prop
-  | leaf {s e} : TreeOver tbl (.leaf s e)
-  | node {A pid dp e ks} : IsProd tbl A (nonExtraSyms ks) pid → (∀ t, t ∈ ks → TreeOver tbl t) →
+  | leaf {s e} : LeafOK tbl s e → TreeOver tbl (.leaf s e)
+  | node {A pid dp e ks} : e = false → IsProd tbl A (nonExtraSyms ks) pid → (∀ t, t ∈ ks → TreeOver tbl t) →
       TreeOver tbl (.node A pid dp e ks)
+
+/-- non-extra shifts are on real terminals that are never shifted as extras -/
+def leafSafe (tbl : Table) : Bool :=
+  (List.range tbl.acts.size).all fun s => (tbl.acts.getD s []).all fun e =>
+    (tbl.actions s e.1).all fun a => match a with
+      | .shift _ false _ => e.1 != 0 && decide (e.1 < tbl.tokenCount) && !isExtraSym tbl e.1
+      | _ => true
+
+/-- no state is an "end of a non-terminal extra" state (grammars without non-terminal extras) -/
+def noLexEnd (tbl : Table) : Bool := tbl.lexState.toList.all fun v => v != 65535
+
+theorem actions_state_lt (tbl : Table) (s a : Nat) (x : Action) (h : x ∈ tbl.actions s a) : s < tbl.acts.size := by
+  have := actions_mem tbl s a x h
+  by_cases hs : s < tbl.acts.size
+  · exact hs
+  · simp [Array.getD, hs] at this
+
+theorem leafSafe_elim (tbl : Table) (h : leafSafe tbl = true) (s a s' : Nat) (r : Bool)
+    (hx : Action.shift s' false r ∈ tbl.actions s a) : a ≠ 0 ∧ a < tbl.tokenCount ∧ isExtraSym tbl a = false := by
+  unfold leafSafe at h
+  simp only [List.all_eq_true, List.mem_range] at h
+  have := h s (actions_state_lt tbl s a _ hx) (a, tbl.actions s a) (actions_mem tbl s a _ hx) _ hx
+  simp only [Bool.and_eq_true, bne_iff_ne, ne_eq, decide_eq_true_eq, Bool.not_eq_true'] at this
+  exact ⟨this.1.1, this.1.2, this.2⟩
+
+theorem isExtraSym_of (tbl : Table) (s a s' : Nat) (r : Bool) (hx : Action.shift s' true r ∈ tbl.actions s a) :
+    isExtraSym tbl a = true := by
+  unfold isExtraSym
+  simp only [List.any_eq_true, List.mem_range]
+  exact ⟨s, actions_state_lt tbl s a _ hx, _, hx, rfl⟩
+
+theorem noLexEnd_elim (tbl : Table) (h : noLexEnd tbl = true) (s : Nat) : tbl.lexEnd s = false := by
+  unfold noLexEnd at h
+  unfold Table.lexEnd
+  by_cases hs : s < tbl.lexState.size
+  · have : (tbl.lexState[s] != 65535) = true := (List.all_eq_true.mp h) _ (Array.mem_toList_iff.mpr (Array.getElem_mem hs))
+    simp [Array.getD, hs]
+    simpa using this
+  · simp [Array.getD, hs]
 
 /-! ## the labelled stack invariant -/
 
@@ -195,7 +248,7 @@ theorem spells_push_extras (tbl : Table) (q : Nat) (hq : q < tbl.stateCount) :
 
 theorem reduce_spells (tbl : Table) (h1 : 1 < tbl.stateCount) (st st' : Stack) (hsp : Spells tbl st)
     (a A n : Nat) (dp : Int) (pid : Nat) (eoe : Bool)
-    (hact : Action.reduce A n dp pid ∈ tbl.actions (topState st) a)
+    (hact : Action.reduce A n dp pid ∈ tbl.actions (topState st) a) (heoe : eoe = false)
     (h : reduce tbl st A n dp pid eoe = .ok st') : Spells tbl st' := by
   unfold reduce at h
   cases hp : popN n st with
@@ -236,7 +289,7 @@ theorem reduce_spells (tbl : Table) (h1 : 1 < tbl.stateCount) (st st' : Stack) (
             simp only [Bool.false_eq_true, if_false]
             unfold symEdge
             simp [hq0]
-        · exact .node ⟨topState st, a, n, dp, topState rest, hact, by rw [hsyms]; exact hpath⟩ hk1
+        · exact .node (by simp [heoe]) ⟨topState st, a, n, dp, topState rest, hact, by rw [hsyms]; exact hpath⟩ hk1
       exact (spells_push_extras tbl _ hqS _ _ hbase (by simp [topState]) hk2).1
 
 /-- no non-extra transition enters the start state, and the only way into an accepting state is
@@ -273,7 +326,7 @@ theorem below_all_extra (tbl : Table) (hno : ∀ p X, p < tbl.stateCount → sym
 /-- what a step is, with the table cell it came from -/
 theorem step_cell (tbl : Table) (c c' : Conf) (h : step tbl c = .inl c') :
     (∃ a A n dp pid eoe, Action.reduce A n dp pid ∈ tbl.actions (topState c.stack) a ∧
-        reduce tbl c.stack A n dp pid eoe = .ok c'.stack) ∨
+        reduce tbl c.stack A n dp pid eoe = .ok c'.stack ∧ (eoe = true → tbl.lexEnd (topState c.stack) = true)) ∨
     (∃ a s' e rep, Action.shift s' e rep ∈ tbl.actions (topState c.stack) a ∧
         c'.stack = ((if e then topState c.stack else s'), PTree.leaf a e) :: c.stack ∧
         (if e then topState c.stack else s') < tbl.stateCount) := by
@@ -284,7 +337,7 @@ theorem step_cell (tbl : Table) (c c' : Conf) (h : step tbl c = .inl c') :
     · cases h
     · next A n dp pid heff =>
       have := reduce_inl_toks tbl c c' A n dp pid true h
-      exact .inl ⟨0, A, n, dp, pid, true, effective_single _ _ heff, this.2⟩
+      exact .inl ⟨0, A, n, dp, pid, true, effective_single _ _ heff, this.2, fun _ => by assumption⟩
     · cases h
   · split at h
     · cases h
@@ -307,7 +360,7 @@ theorem step_cell (tbl : Table) (c c' : Conf) (h : step tbl c = .inl c') :
           · next hno => cases h; exact .inr ⟨a, s', false, rep, by simpa using hmem, by simp, by simp; omega⟩
     · next A n dp pid heff =>
       have := reduce_inl_toks tbl c c' A n dp pid false h
-      exact .inl ⟨_, A, n, dp, pid, false, effective_single _ _ heff, this.2⟩
+      exact .inl ⟨_, A, n, dp, pid, false, effective_single _ _ heff, this.2, fun h => by cases h⟩
     · split at h
       · split at h <;> cases h
       · cases h
@@ -341,13 +394,22 @@ theorem step_accept_cell (tbl : Table) (c : Conf) (t : PTree) (h : step tbl c = 
     · cases h
     · cases h
 
-theorem step_spells (tbl : Table) (h1 : 1 < tbl.stateCount) (c c' : Conf) (hsp : Spells tbl c.stack)
+theorem step_spells (tbl : Table) (h1 : 1 < tbl.stateCount) (hleaf : leafSafe tbl = true) (hnle : noLexEnd tbl = true)
+    (c c' : Conf) (hsp : Spells tbl c.stack)
     (h : step tbl c = .inl c') : Spells tbl c'.stack := by
-  rcases step_cell tbl c c' h with ⟨a, A, n, dp, pid, eoe, hact, hr⟩ | ⟨a, s', e, rep, hact, hst, hS⟩
-  · exact reduce_spells tbl h1 c.stack c'.stack hsp a A n dp pid eoe hact hr
+  rcases step_cell tbl c c' h with ⟨a, A, n, dp, pid, eoe, hact, hr, hle⟩ | ⟨a, s', e, rep, hact, hst, hS⟩
+  · have heoe : eoe = false := by
+      cases eoe with
+      | false => rfl
+      | true => have := hle rfl; rw [noLexEnd_elim tbl hnle] at this; cases this
+    exact reduce_spells tbl h1 c.stack c'.stack hsp a A n dp pid eoe hact heoe hr
   · rw [hst]
     simp only [Spells, PTree.isExtra, PTree.sym]
-    refine ⟨hS, ?_, .leaf, hsp⟩
+    have hlk : LeafOK tbl a e := by
+      cases e with
+      | true => exact ⟨fun _ => .inl (isExtraSym_of tbl _ a s' rep hact), (fun h => by cases h)⟩
+      | false => exact ⟨(fun h => by cases h), fun _ => leafSafe_elim tbl hleaf _ a s' rep hact⟩
+    refine ⟨hS, ?_, .leaf hlk, hsp⟩
     cases e with
     | true => simp
     | false =>
@@ -450,10 +512,15 @@ theorem spells_trees (tbl : Table) : ∀ (st : Stack), Spells tbl st → ∀ e, 
     · exact h.2.2.1
     · exact ih h.2.2.2 e he'
 
+/-- the root is a non-extra node whose symbol labels a transition from the start state into an accepting state -/
+def RootOK (tbl : Table) (t : PTree) : Prop :=
+  ∃ sym pid dp ks q a, t = PTree.node sym pid dp false ks ∧ q < tbl.stateCount ∧
+    Action.accept ∈ tbl.actions q a ∧ symEdge tbl 1 sym q = true
+
 /-- the tree built at acceptance is a tree over the table's productions -/
 theorem accept_treeOver (tbl : Table) (h1 : 1 < tbl.stateCount) (hroot : rootSafe tbl = true)
     (st : Stack) (hsp : Spells tbl st) (t : PTree) (hacc : acceptTree st = some t)
-    (a : Nat) (hcell : Action.accept ∈ tbl.actions (topState st) a) : TreeOver tbl t := by
+    (a : Nat) (hcell : Action.accept ∈ tbl.actions (topState st) a) : TreeOver tbl t ∧ RootOK tbl t := by
   obtain ⟨hno1, honly⟩ := rootSafe_elim tbl hroot
   unfold acceptTree at hacc
   simp only at hacc
@@ -474,7 +541,7 @@ theorem accept_treeOver (tbl : Table) (h1 : 1 < tbl.stateCount) (hroot : rootSaf
     have hp1 : topState lower = 1 := honly q a _ _ hqS (spells_top tbl h1 lower hlow) hcell hlink
     have hlowx := below_all_extra tbl hno1 h1 lower hlow hp1
     cases hnode with
-    | node hprod hkids =>
+    | node _ hprod hkids =>
       have hafter : ∀ x, x ∈ (List.takeWhile PTree.isExtra (PTree.leaf 0 true :: List.map (·.2) (upper ++ (q, PTree.node sym pid dp e kids) :: lower))).reverse →
           x.isExtra = true ∧ TreeOver tbl x := by
         intro x hx
@@ -482,7 +549,7 @@ theorem accept_treeOver (tbl : Table) (h1 : 1 < tbl.stateCount) (hroot : rootSaf
         refine ⟨mem_takeWhile_imp' _ _ _ hx, ?_⟩
         have hmem := mem_of_mem_takeWhile' _ _ _ hx
         rcases List.mem_cons.mp hmem with rfl | hmem'
-        · exact .leaf
+        · exact .leaf ⟨fun _ => .inr rfl, (fun h => by cases h)⟩
         · simp only [List.mem_map] at hmem'
           obtain ⟨e', he', rfl⟩ := hmem'
           exact spells_trees tbl _ hsp e' he'
@@ -492,7 +559,7 @@ theorem accept_treeOver (tbl : Table) (h1 : 1 < tbl.stateCount) (hroot : rootSaf
         simp only [List.mem_map] at hx
         obtain ⟨e', he', rfl⟩ := hx
         exact ⟨hlowx e' he', spells_trees tbl lower hlow e' he'⟩
-      refine .node ?_ ?_
+      refine ⟨.node rfl ?_ ?_, ⟨_, _, _, _, q, a, rfl, hqS, hcell, by rw [← hp1]; exact hlink⟩⟩
       · rw [nonExtraSyms_append, nonExtraSyms_append, nonExtraSyms_extras _ (fun x hx => (hbefore x hx).1),
           nonExtraSyms_extras _ (fun x hx => (hafter x hx).1)]
         simpa using hprod
@@ -505,8 +572,10 @@ theorem accept_treeOver (tbl : Table) (h1 : 1 < tbl.stateCount) (hroot : rootSaf
   · cases hacc
 
 /-- the invariant along the loop -/
-theorem runLoop_sound (tbl : Table) (h1 : 1 < tbl.stateCount) (hroot : rootSafe tbl = true) :
-    ∀ (fuel : Nat) (c : Conf) (t : PTree), Spells tbl c.stack → runLoop tbl fuel c = .accepted t → TreeOver tbl t := by
+theorem runLoop_sound (tbl : Table) (h1 : 1 < tbl.stateCount) (hroot : rootSafe tbl = true)
+    (hleaf : leafSafe tbl = true) (hnle : noLexEnd tbl = true) :
+    ∀ (fuel : Nat) (c : Conf) (t : PTree), Spells tbl c.stack → runLoop tbl fuel c = .accepted t →
+      TreeOver tbl t ∧ RootOK tbl t := by
   intro fuel
   induction fuel with
   | zero => intro c t _ h; simp [runLoop] at h
@@ -516,7 +585,7 @@ theorem runLoop_sound (tbl : Table) (h1 : 1 < tbl.stateCount) (hroot : rootSafe 
     cases hstep : step tbl c with
     | inl c' =>
       rw [hstep] at h
-      exact ih c' t (step_spells tbl h1 c c' hsp hstep) h
+      exact ih c' t (step_spells tbl h1 hleaf hnle c c' hsp hstep) h
     | inr o =>
       rw [hstep] at h
       simp only at h
